@@ -83,6 +83,65 @@ def late_modulus_tail(plan):
     plan["body"].extend(tail)
 
 
+def dead_field_zero_tail(plan):
+    """One run in eight ends with a region (usually not taken) in which a value that is zero in the field but not as
+    an integer is met by the zero / equality tests and assertions: an inexact division by a public constant, undone by
+    a multiplication, compared with the original (draws from a generator of its own)."""
+    if plan["cfg"].get("max_nesting", 0) < 1:
+        return
+    r2 = _random.Random("field-zero-tail/%s" % P.plan_digest(plan))
+    if r2.random() > 0.125:
+        return
+    k = r2.choice([3, 5, 7])
+    n_i = sum(1 for i in plan["inputs"] if i["t"] == "I")
+    n_b = sum(1 for i in plan["inputs"] if i["t"] == "B")
+    plan["inputs"].append({"kind": "priv", "t": "I", "v": r2.choice([1, 2, 4, 5, k, 2 * k])})
+    plan["inputs"].append({"kind": "priv", "t": "B", "v": r2.choice([0, 0, 0, 1])})
+    x, c = {"ref": n_i, "t": "I"}, {"ref": n_b, "t": "B"}
+    back = {"op": "*", "a": {"op": "/", "a": x, "b": {"k": k, "t": "I"}, "t": "I"}, "b": {"k": k, "t": "I"}, "t": "I"}
+    body = []
+    for _ in range(r2.randrange(1, 4)):
+        u = r2.random()
+        if u < 0.25:
+            body.append({"s": "assert", "kind": r2.choice(["ne", "eq"]), "args": [back, x], "try": True})
+        elif u < 0.45:
+            body.append({"s": "assert", "kind": r2.choice(["nonzero", "zero"]),
+                         "args": [{"op": "-", "a": back, "b": x, "t": "I"}], "try": True})
+        elif u < 0.75:
+            body.append({"s": "let", "e": {"op": r2.choice(["==", "!="]), "a": back, "b": x, "t": "B"}, "try": True})
+        else:
+            body.append({"s": "let", "e": {"call": r2.choice(["check_zero", "check_nonzero"]),
+                                           "args": [{"op": "-", "a": back, "b": x, "t": "I"}], "t": "B"}, "try": True})
+    plan["body"].append({"s": "guarded", "cond": c, "body": body, "try": True})
+
+
+def commuted_factors_tail(plan):
+    """One run in six ends with products whose two factors are linear combinations of the same variables built in
+    different orders (and sums in which a variable cancels): what a backend stores per term, in which order, must not
+    matter (draws from a generator of its own)."""
+    r2 = _random.Random("commuted-tail/%s" % P.plan_digest(plan))
+    if r2.random() > 1 / 6:
+        return
+    n_i = sum(1 for i in plan["inputs"] if i["t"] == "I")
+    plan["inputs"].append({"kind": "priv", "t": "I", "v": r2.choice([2, 3, 5, -4])})
+    plan["inputs"].append({"kind": r2.choice(["priv", "pub"]), "t": "I", "v": r2.choice([1, 4, 6, -2])})
+    x, y = {"ref": n_i, "t": "I"}, {"ref": n_i + 1, "t": "I"}
+
+    def lin(first, second, c1, c2):
+        return {"op": "+", "a": {"op": "*", "a": first, "b": {"k": c1, "t": "I"}, "t": "I"},
+                "b": {"op": "*", "a": second, "b": {"k": c2, "t": "I"}, "t": "I"}, "t": "I"}
+    for _ in range(r2.randrange(1, 3)):
+        u = r2.random()
+        if u < 0.6:
+            e = {"op": "*", "a": lin(x, y, r2.choice([1, 2, 3]), r2.choice([1, 3, -1])),
+                 "b": lin(y, x, r2.choice([1, 5, 2]), r2.choice([7, 1, -2])), "t": "I"}
+        elif u < 0.8:
+            e = {"op": "*", "a": {"op": "-", "a": lin(x, y, 1, 1), "b": y, "t": "I"}, "b": lin(y, x, 2, 1), "t": "I"}
+        else:
+            e = {"op": "==", "a": lin(x, y, 2, 3), "b": lin(y, x, 3, 2), "t": "B"}
+        plan["body"].append({"s": "let", "e": e, "try": True})
+
+
 def boundary_region_tail(plan):
     """One run in eight ends with a region guarded by a secret condition (usually true) in which operands at the
     edges of the signed bitlength range meet in comparisons, shifts and bit operations: the Python-level self check of
@@ -207,6 +266,7 @@ class C08(TraceCheck):
     def cfg(self, rng):
         c = swarm_cfg(rng, self.backends, fxp_p=0.2, bits=(3, 4, 6, 8))
         c["max_nesting"] = rng.choice([1, 2, 3, 3])
+        c["p_nonbool_cond"] = 0.12
         return c
 
     def is_nontrivial(self, tr):
@@ -596,19 +656,24 @@ class C02(ProverCheck):
             body = [region] + [{"s": "let", "e": bitop()} for _ in range(rng.choice([1, 2]))]
             return {"plan": {"cfg": cfg, "inputs": inputs, "body": body}, "seed": rng.randrange(1 << 30),
                     "deep": tier == "thorough"}
-        if i % 16 == 1:
-            # selection between a boolean and a raw (undeclared) secret integer, either way round, and the result used
-            # where a boolean is expected
+        if i % 8 == 1:
+            # selection between a boolean and a raw (undeclared) secret integer, either way round, and flags compared
+            # / combined with such an integer on either side (operator and orientation swept by the run index)
             cfg["max_nesting"] = 0
-            inputs = [{"kind": "priv", "t": "I", "v": rng.choice([0, 1, 2, 5, -1, 3])},
-                      {"kind": "priv", "t": "B", "v": rng.randrange(2)}, {"kind": "priv", "t": "B", "v": rng.randrange(2)}]
-            args = [{"ref": 0, "t": "B"}, {"ref": 1, "t": "B"}, {"ref": 0, "t": "I"}]
-            if rng.random() < 0.5:
-                args[1], args[2] = args[2], args[1]
-            body = [{"s": "let", "e": {"call": "ite", "args": args, "t": "I"}}]
-            if rng.random() < 0.5:
-                body.append({"s": "let", "e": {"op": rng.choice(["&", "|", "^"]), "a": {"ref": 1, "t": "B"},
-                                               "b": {"ref": 1, "t": "I"}, "t": "B"}})
+            j = i // 8
+            inputs = [{"kind": "priv", "t": "I", "v": rng.choice([2, 5, -1, 3, 7, 2, 0, 1])},
+                      {"kind": "priv", "t": "B", "v": rng.choice([1, 1, 1, 0])}, {"kind": "priv", "t": "B", "v": rng.randrange(2)}]
+            if j % 3 == 0:
+                args = [{"ref": 1, "t": "B"}, {"ref": 0, "t": "B"}, {"ref": 0, "t": "I"}]
+                if rng.random() < 0.5:
+                    args[1], args[2] = args[2], args[1]
+                body = [{"s": "let", "e": {"call": "ite", "args": args, "t": "I"}}]
+            else:
+                ops = ["<", "<=", ">", ">=", "==", "!=", "&", "|", "^"]
+                a, b = {"ref": 0, "t": "B"}, {"ref": 0, "t": "I"}
+                if j % 3 == 2:
+                    a, b = b, a
+                body = [{"s": "let", "e": {"op": ops[(j // 3) % len(ops)], "a": a, "b": b, "t": "B"}}]
             return {"plan": {"cfg": cfg, "inputs": inputs, "body": body}, "seed": rng.randrange(1 << 30),
                     "deep": tier == "thorough"}
         if i % 8 == 5:
@@ -692,7 +757,7 @@ class C03(ProverCheck):
     kinds = ["lt", "le", "eq", "ne", "gt", "ge", "zero", "nonzero", "positive", "positive_n", "range",
              "range_secret", "tobool", "bits_n", "bool_cmp", "fxp_cmp", "fxp_range", "gt", "lt", "positive_n",
              "range", "bool_vs_int", "boolop_int", "fxp_const_other_resolution", "int_const_other_bitlength",
-             "int_vs_fxp", "dead_first"]
+             "int_vs_fxp", "dead_first", "unpack_raw"]
     rule = ("one assertion or type declaration per plan (assert_lt/le/eq/ne/gt/ge on integer, boolean and "
             "fixed-point operands with secret and constant right-hand sides, integer receiver with fixed-point "
             "operand and vice versa, assert_zero/nonzero, "
@@ -808,6 +873,15 @@ class C03(ProverCheck):
             vectors = [[a] for a in _boundary(rng, c, min(bl, 4))]
             plan = {"cfg": cfg, "inputs": inputs, "body": pre + [stmt]}
             return {"plan": plan, "vectors": vectors[:12], "seed": rng.randrange(1 << 30)}
+        elif kind == "unpack_raw":
+            # raw secret bits declared to be a bounded integer (PackIntMod.unpack): v < modulus, nothing else
+            m = rng.choice([3, 5, 6, 7, 9, 10, 12, 17, 4, 8])
+            w = (m - 1).bit_length()
+            cfg["bitlength"] = max(cfg["bitlength"], 8)
+            inputs = [{"kind": "priv", "t": "I", "v": 0} for _ in range(w)]
+            stmt = {"s": "unpack_raw", "schema": ["int", m], "nbits": w}
+            vals = sorted({0, 1, m - 1, m, m + 1, (1 << w) - 1} & set(range(1 << w)))
+            vectors = [[(v >> j) & 1 for j in range(w)] for v in vals]
         elif kind == "int_vs_fxp":
             # operands of two different secret types in one assertion (either refused, or judged on the numbers
             # the operands stand for)
@@ -871,6 +945,8 @@ class C03(ProverCheck):
         import operator
         ops = {"lt": operator.lt, "le": operator.le, "eq": operator.eq, "ne": operator.ne, "gt": operator.gt,
                "ge": operator.ge}
+        if s["s"] == "unpack_raw":
+            return sum(b << j for j, b in enumerate(vec[:s["nbits"]])) < s["schema"][1]
         if s["s"] == "assert":
             a = [val(x) for x in s["args"]]
             if any(x is None for x in a):
@@ -903,6 +979,8 @@ class C03(ProverCheck):
 
         def kd(x):
             return "k" if "k" in x else x["t"]
+        if s["s"] == "unpack_raw":
+            return {"op": "unpack_raw", "kinds": "I"}
         if s["s"] == "assert":
             d = {"op": "assert_" + s["kind"], "kinds": ",".join(kd(a) for a in s["args"])}
             if s.get("bits") is not None:
@@ -1121,14 +1199,14 @@ class C16(ProverCheck):
             plan = {"cfg": cfg, "inputs": [{"kind": "priv", "t": "I", "v": 0}], "body": [stmt]}
             return {"mode": "width", "n": n, "plan": plan, "vectors": [[v] for v in vec],
                     "seed": rng.randrange(1 << 30)}
-        if rng.random() < 0.2:
+        if rng.random() < 0.3:
             # unpack bits that did not come from pack(): raw secret integers holding 0/1 (plan inputs); a bounded
             # integer field holding a value >= its modulus must be refused, and unprovable without the check
             sc = self.gen_schema(rng, rng.choice([0, 1, 2]), [16])
             nb = _schema_bits(sc)
             if nb >= 1:
                 bits = [rng.randrange(2) for _ in range(nb)]
-                if rng.random() < 0.4:
+                if rng.random() < 0.6:
                     # push every non-power-of-two field to its top value(s)
                     _force_top(sc, bits, 0, rng)
                 cfg["bitlength"] = max(cfg["bitlength"], 8)
@@ -1587,6 +1665,12 @@ class FileCheck(TraceCheck):
                              {"s": "let", "e": {"op": "*", "a": {"ref": 0, "t": "I"}, "b": {"ref": 0, "t": "I"}, "t": "I"}}]}
             if rng.random() < 0.5:
                 plan["body"].append({"s": "val", "a": {"ref": 1, "t": "I"}})
+            if (i // 8) % 5 == 4:
+                # ... and no constraint at all: values only (an empty constraint system is a system too)
+                cfg["no_default_operands"] = True
+                plan["body"] = plan["body"][:1]
+                if rng.random() < 0.5:
+                    plan["body"].append({"s": "let", "e": {"op": "+", "a": {"ref": 0, "t": "I"}, "b": {"k": 3, "t": "I"}, "t": "I"}})
             return {"plan": plan, "alt_inputs": [rng.randrange(2, 9)], "stale_dir": False}
         w = swarm_weights(rng, self.weights, self.toggles)
         plan = P.generate(rng, cfg, w)
@@ -1619,6 +1703,7 @@ class FileCheck(TraceCheck):
             bulk = rng.choice([300, 5000])
         if bulk:
             plan["body"].insert(rng.randrange(0, len(plan["body"]) + 1), {"s": "bulk_priv", "n": bulk})
+        commuted_factors_tail(plan)
         g = P.Gen(rng, cfg)
         alt = []
         for inp in plan["inputs"]:
@@ -1796,7 +1881,7 @@ EXIT_MODES = [("end", None), ("sys_exit", EXIT_ARGS), ("raise_SystemExit", EXIT_
               ("uncaught_assert", None), ("uncaught_in_guard", None), ("uncaught_in_dead_guard_user", None),
               ("uncaught_in_snark", None), ("uncaught_in_finally", None), ("keyboard_interrupt", None),
               ("caught_exit_then_end", ["0", "3", "'msg'"]), ("caught_error_then_end", None),
-              ("os__exit", ["0", "1"]), ("exit_in_guard", ["0", "3"])]
+              ("os__exit", ["0", "1"]), ("exit_in_guard", ["0", "3"]), ("fork_worker", None)]
 
 ARTEFACTS = {
     "snarkjs": ("witness.wtns", "circuit.r1cs"),
@@ -2005,8 +2090,9 @@ def c19_configs():
     loadables = []
     for ls in (0, 1):
         for fb in (0, 1):
-            for qt in (0, 1):
-                loadables.append({"libsnark": bool(ls), "flatbuffers": bool(fb), "qaptools": bool(qt)})
+            for qt in (0, 1, "path"):
+                # ("path": the tools are installed in the system path and QAPTOOLS_BIN is not set at all)
+                loadables.append({"libsnark": bool(ls), "flatbuffers": bool(fb), "qaptools": qt if qt == "path" else bool(qt)})
     for env in envs:
         for pre in pres:
             for lo in loadables:
@@ -2053,6 +2139,8 @@ class C19(TraceCheck):
         env["PYTHONPATH"] = ":".join(pp)
         if not lo["qaptools"]:
             env["QAPTOOLS_BIN"] = "/nonexistent-qaptools-bin"
+        elif lo["qaptools"] == "path":
+            env["PATH"] = env.pop("QAPTOOLS_BIN") + ":" + env["PATH"]
         if case["env"] is not None:
             env["PYSNARK_BACKEND"] = case["env"]
         importfail = [m for m in ("flatbuffers", "libsnark") if not lo[m]]
@@ -2257,8 +2345,13 @@ if _ph is not None:
     if _rt.backend_name != "nobackend":
         for _vec in _cfg["perm_inputs"]:
             _n0 = _rt.num_constraints
-            _out = _ph.permute([PrivVal(v) for v in _vec])
+            _st = [PrivVal(v) for v in _vec]
+            _out = _ph.permute(_st)
             _side({"ev": "permute", "inp": _vec, "out": [x.value for x in _out], "ncons": _rt.num_constraints - _n0})
+            # the caller goes on using its state list (a second application, a feed-forward): it must be what it was
+            _out2 = _ph.permute(_st)
+            _side({"ev": "permute_again", "inp": _vec, "state_after": [getattr(x, "value", x) for x in _st],
+                   "same_objects": len(_st) == len(_vec), "out": [x.value for x in _out], "out2": [x.value for x in _out2]})
         for _msg in _cfg["messages"]:
             _n0 = _rt.num_constraints
             _lst = [PrivVal(v) for v in _msg]
@@ -2450,6 +2543,12 @@ class C20(TraceCheck):
                 if len(s) > 1:
                     add("constraint_count_depends_on_input", "%s: %r constraints for inputs of equal length" % (k, sorted(s)))
         for e in ev:
+            if e["ev"] == "permute_again":
+                pp = W.PRIMES.get(name)
+                if pp and ([v % pp for v in e["state_after"]] != [v % pp for v in e["inp"]] or
+                           [v % pp for v in e["out2"]] != [v % pp for v in e["out"]]):
+                    add("permute_mutates_its_argument", "after permute(state) the caller's state list holds other values "
+                        "/ a second application of the same state gives another result")
             if e["ev"] == "ggh_raised":
                 add("ggh_raised", "subset-sum hash of %d %s bits raised %s" % (len(e["bits"]), e["kind"], e["error"]),
                     kind=e["kind"])
@@ -2522,6 +2621,7 @@ class C07(ProverCheck):
         # undo (guarded() is not transactional; the block API is the tool for that): not part of the twin comparison
         cfg["no_aset_in_regions"] = True
         plan = P.generate(rng, cfg, w)
+        dead_field_zero_tail(plan)
         return {"plan": plan, "seed": rng.randrange(1 << 30)}
 
     def run(self, case):
@@ -4187,6 +4287,10 @@ class C12(TraceCheck):
             for inp in plan["inputs"]:
                 if inp["t"] == "F":
                     inp["t"], inp["v"] = "I", int(inp["v"])
+            r2 = _random.Random("pybool/%s" % P.plan_digest(plan))
+            for inp in plan["inputs"]:
+                if inp["t"] == "B" and r2.random() < 0.4:
+                    inp["v"] = bool(inp["v"])        # PrivValBool(True): a Python bool is a legal boolean value
             return {"plan": plan, "faults": {"bufcap": rng.choice([0, "line", 64, 8192, None])}, "second_run": False,
                     "alt_inputs": [], "seed": rng.randrange(1 << 30), "general": True}
         nf = rng.randrange(0, 4)
